@@ -68,6 +68,7 @@ impl Prop for C08 {
     }
     fn check(c: &Case, ctx: &mut Ctx) -> CheckResult {
         let e = effective(c);
+        crate::common::label_long(ctx, &e.b);
         if c.drop_cogen_input && e.b.render().parse::<cteepbd::Components>().is_err() {
             // removing the cogeneration input may leave an auxiliary-bearing system without any
             // consumption line, which the parser rejects: nothing to compare
